@@ -140,4 +140,19 @@ def install (srv : Server) (good : Bytes → Bool) (force noClean : Bool) (w : W
         let w := { w with installed := true }                                -- mark_as_installed
         (w, Except.ok Status.installed)                                      -- upgrade(); prob_status()
 
+/-- one invocation of the tool: its flags and the server it talks to (any function, different for every invocation) -/
+structure Call where
+  force : Bool
+  noClean : Bool
+  srv : Server
+
+/-- a HISTORY of invocations on the same install directory: each starts from the disk the previous one left (archive,
+  marker, everything extracted so far); the request counter and log are per invocation -/
+def runCalls (good : Bytes → Bool) : List Call → World → World × List (Except Err Status)
+  | [], w => (w, [])
+  | c :: cs, w =>
+    let (w1, r) := install c.srv good c.force c.noClean { w with reqs := 0, log := [] }
+    let (w2, rs) := runCalls good cs w1
+    (w2, r :: rs)
+
 end Kapture.C17
